@@ -90,6 +90,27 @@ func runC11(c *Ctx) {
 			{Name: "byte arrays: a one-byte string below 0x80 must be a single byte", Unless: `^Stream#0\.Kind\(\)#0 (!= 1|== 0|== 2)$`,
 				Re: `^(Stream#0\.Kind\(\)#1 != 1|.*\[0\] >= 128)$`},
 		})
+		// "nil"-tagged pointers: only the empty string / empty list stands for nil. Kind reports size 0 for a single
+		// byte too, so the emptiness test must exclude kind Byte or a one-byte value silently decodes to nil
+		if od := c.FnOpt("rlp:makeOptionalPtrDecoder$1"); od == nil {
+			c.Ob("C11-R1", "optional pointer decoder closure found", "", false, "")
+		} else {
+			fod := c.Facts(od)
+			var asNil []*pstate
+			for _, rs := range fod.AllReturns() {
+				_, dec := hasLit(rs.State, mustRe(`^call:dyn:fv:\w+\.decoder$`))
+				if !dec && rs.State.lits["Stream#0.Kind()#2 == nil"] {
+					asNil = append(asNil, rs.State)
+				}
+			}
+			c.mustStates("C11-R1", od, "return that decodes the field as nil", asNil, []LitReq{
+				{Name: "a nil-tagged pointer decodes to nil only for an empty value (size 0)", Re: `^Stream#0\.Kind\(\)#1 == 0$`},
+				{Name: "a single byte (kind Byte, reported with size 0) is not an empty value", Re: `^Stream#0\.Kind\(\)#0 != 0$`},
+			})
+			if len(asNil) == 0 {
+				c.Ob("C11-R1", "optional pointer decoder has the empty-value path", c.FnPos(od), false, "")
+			}
+		}
 		// raw family
 		rr := c.Fn("rlp:readKind")
 		fr := c.Facts(rr)
@@ -155,7 +176,7 @@ func runC11(c *Ctx) {
 			c.Ob("C11-R1", "string headers use 0x80 / 0xB7", c.Position(cs.Pos()), t == "128,183", t)
 		}
 	})
-	c.Min("C11-R1", 26)
+	c.Min("C11-R1", 28)
 
 	c.Rule("C11-R1b", "Stream.Kind: size-limit errors are sticky", func() {
 		kd := c.Fn("rlp:(*Stream).Kind")
